@@ -83,6 +83,10 @@ def run(ctx):
     prog = common.view(ctx, "default")
     lib = prog.lib
     roles = common.role_fields(ctx, lib, want=("escape", "surrogate"))
+    # PLB-1 (shared with C06): the two positional flags of the escaper only ever carry their own setting, at every call site including the recursive one
+    from . import plumbing
+    ctx.rule("PLB-1", "value-flow provenance: the escape flag and the surrogate flag of the symbol escaper receive only their own setting (no crossed positional bools)")
+    plumbing.check(ctx, lib, roles, None, want=("escape", "surrogate"))
     fns = find_escape_fn(lib)
     if len(fns) != 1:
         ctx.anchor_lost("ESCP-1", "per-character escaper (found %d)" % len(fns))
